@@ -119,6 +119,21 @@ func (p EmitPlan) Expected() (stdout, stderr []byte, exit int) {
 	return stdout, stderr, 0
 }
 
+// ExpectedMerged returns what the command writes when both descriptors refer to the same stream (`2>&1` / `1>&2`):
+// every write in the order the single-threaded command issued them
+func (p EmitPlan) ExpectedMerged() (all []byte, exit int) {
+	for i, c := range p.chunks() {
+		if p.ExitAt > 0 && i >= p.ExitAt {
+			return all, 3
+		}
+		all = append(all, c.data...)
+	}
+	if p.ExitAt > 0 {
+		return all, 3
+	}
+	return all, 0
+}
+
 // EmitMain is the task command: writes the planned output
 func EmitMain(args []string) int {
 	p, err := ParseEmitArgs(args)
